@@ -209,7 +209,15 @@ async fn receiver(mut ch: AgentChannel, lane: Lane, fill: u64, script: Vec<Chunk
                 biased;
                 r = ch.dequeue_chunk() => match r {
                     Ok(c) => c,
-                    Err(_) => return RecvEnd::Trouble(Trouble::Closed("receiver dequeue")),
+                    // the harness keeps both sockets and every channel open until all receivers are done, so the only
+                    // way a subscribed agent can find its queue closed is that the demultiplexer task itself gave up:
+                    // this chunk and everything after it will never be delivered
+                    Err(e) => {
+                        return RecvEnd::Fail(Fail {
+                            sig: "demuxer-stopped-delivering".into(),
+                            msg: format!("receiver of lane {:?}: after {i}/{} chunks dequeue_chunk failed with {e:?} although neither side closed anything", lane, script.len()),
+                        })
+                    }
                 },
                 r = flushed.wait_for(|v| *v) => {
                     if r.is_err() {
